@@ -6,7 +6,7 @@ import lib
 PROP = "C01"
 LEVEL = "proof"
 THEOREM_FILE = "properties/C01.v"
-CASE_DEPS = ["theories/CompileTop.v", "theories/DenSrc.v"]
+CASE_DEPS = ["theories/CompileTop.v", "theories/DenSrc.v", "theories/Checks.v"]
 RULE = ("stream hier-compile: seeded random routine hierarchies (depth<=4, fan-out<=3, random wiring DAGs, pass-throughs, through "
         "ports, direct and deep links, unlinked parameters, locals, all five repetition kinds, names drawn per scope from a 4-name "
         "pool so clashes are the norm); the real compile_routine is compared inside Coq (vm_compute, exact rationals, 4 points) "
@@ -16,8 +16,8 @@ TRUSTED_BASE = []
 ASSUMPTIONS = []
 
 
-def emit(pairs):
-    lines = [lib.CASE_HEADER.format(imports="RepModel Routine Compile CompileTop DenSrc", gen_imports="")]
+def emit(pairs, check_fn=None):
+    lines = [lib.CASE_HEADER.format(imports="RepModel Routine Compile CompileTop DenSrc Checks", gen_imports="")]
     items = []
     for k, (case, imp) in enumerate(pairs):
         lines.append(f"Definition r{k} : routine := {H.routine_to_coq(case['routine'])}.")
@@ -28,7 +28,10 @@ def emit(pairs):
         rng = lib.Rng(f"pts-{lib.case_hash(case)}")
         pts = H.points_to_coq(H.make_points(rng, names, 4))
         inex = "true" if imp.get("inexact") else "false"
-        items.append(f"(tie_compile r{k} i{k} {inex} {pts}, spec_compile r{k} i{k} {inex} {pts})")
+        if check_fn:
+            items.append(f"({check_fn} r{k} i{k} {inex} {pts})")
+        else:
+            items.append(f"(tie_compile r{k} i{k} {inex} {pts}, spec_compile r{k} i{k} {inex} {pts})")
     lines.append("Definition results : list (list nat * list nat) :=\n " + E.coq_list(items) + ".\n")
     lines.append("Eval vm_compute in results.\n")
     return "\n".join(lines)
@@ -54,18 +57,19 @@ def distribution(cases):
     return d
 
 
-def gen_cases(rng, n, max_depth):
+def gen_cases(rng, n, max_depth, **kw):
     out = []
     while len(out) < n:
-        r = H.gen_hierarchy(rng, max_depth=rng.randint(1, max_depth))
+        r = H.gen_hierarchy(rng, max_depth=rng.randint(1, max_depth), **kw)
         if H.count_nodes(r) > 14:
             continue
         out.append({"routine": r})
     return out
 
 
-def mk_stream(cases):
-    return {"name": "hier-compile", "impl_stream": "hier-compile", "cases": cases, "emit": emit, "shard_size": 12,
+def mk_stream(cases, check_fn=None):
+    return {"name": "hier-compile", "impl_stream": "hier-compile", "cases": cases,
+            "emit": (lambda pairs: emit(pairs, check_fn)), "shard_size": 12,
             "nontrivial": nontrivial, "distribution": distribution, "timeout": 60}
 
 
